@@ -697,6 +697,74 @@ func TestEnumJoint(t *testing.T) {
 	enumerate(t, "enum-joint", algoAll, repsBy(jointSig), envLen("C06_JOINT_LEN", 3))
 }
 
+// TestEnumCodePoints: value-specific paths (fast paths, range edges) show only at specific code
+// points, which one representative per class never reaches. X = edgePoints() (all of U+0000..U+00FF,
+// the four edges lo-1, lo, hi, hi+1 of every range of every table read by the segmenter, the
+// encoding-length edges, U+10FFFF). Enumerated through all three algorithms:
+//   - every pair (a, b) of U+0000..U+00FF,
+//   - (x, r) and (r, x) for every x in X and every joint representative r,
+//   - the triples (r, x, r'), (x, r, r'), (r, r', x) with r, r' over the representatives of each
+//     algorithm (that algorithm only): completely for x <= U+00FF, and for the other x completely
+//     in the thorough tier, a seed-dependent 1/12 sample in the quick tier.
+func TestEnumCodePoints(t *testing.T) {
+	si, sn := ev.Shard()
+	X := edgePoints()
+	joint := repsBy(jointSig)
+	perAlgo := []struct {
+		algo int
+		reps []rune
+	}{{algoLine, repsBy(lineSig)}, {algoGrapheme, repsBy(graphemeSig)}, {algoWord, repsBy(wordSig)}}
+	ev.Note("enum-codepoints: %d concrete code points (256 of them <= U+00FF) x %d joint representatives (pairs), x %d/%d/%d line/grapheme/word representatives (triples)",
+		len(X), len(joint), len(perAlgo[0].reps), len(perAlgo[1].reps), len(perAlgo[2].reps))
+	rnd := ev.NewRand(uint64(ev.Seed())*0x9E3779B97F4A7C15 + uint64(si) + 1)
+	sampleDen := envLen("C06_CP_SAMPLE", ev.Scale(12, 1))
+	var total, nt int64
+	buf := make([]rune, 3)
+	eval := func(algos int, n int) {
+		total++
+		if checkText(t, "enum-codepoints", algos, buf[:n]) {
+			nt++
+		}
+	}
+	for xi, x := range X {
+		if xi%sn != si {
+			continue
+		}
+		if x <= 0xFF {
+			for b := rune(0); b <= 0xFF; b++ {
+				buf[0], buf[1] = x, b
+				eval(algoAll, 2)
+			}
+		}
+		for _, r := range joint {
+			buf[0], buf[1] = x, r
+			eval(algoAll, 2)
+			buf[0], buf[1] = r, x
+			eval(algoAll, 2)
+		}
+		full := x <= 0xFF || sampleDen <= 1
+		for _, pa := range perAlgo {
+			for _, r1 := range pa.reps {
+				for _, r2 := range pa.reps {
+					if !full && rnd.Intn(sampleDen) != 0 {
+						continue
+					}
+					buf[0], buf[1], buf[2] = r1, x, r2
+					eval(pa.algo, 3)
+					buf[0], buf[1], buf[2] = x, r1, r2
+					eval(pa.algo, 3)
+					buf[0], buf[1], buf[2] = r1, r2, x
+					eval(pa.algo, 3)
+				}
+			}
+		}
+	}
+	ev.CaseEnum(total, nt)
+	ev.LabelN("enum:enum-codepoints", total)
+	flushHits()
+	surveyReport(t)
+}
+
 // ---- 6. replay ----
 
 func TestReplay(t *testing.T) {
